@@ -1,0 +1,258 @@
+//go:build verif
+
+package resolve
+
+// Contracts for the deductive verifier in /verif (comment-only file, build tag verif).
+// Events (ghost counters): sent = a request handed to a DataSource; merged = astjson.MergeValues*;
+// dataSet = DataBuffer.Set; arrayAppended = astjson.AppendToArray (error arrays); jsonSet = SetValue/SetNull.
+
+// Fields that are set when a Loader is created/initialised and never stored to afterwards. The
+// verifier scans every function of the package for stores to them (obligation <T.f>#stable.writers).
+//@ decl stable Loader.dataBuffer by NewLoader
+//@ decl stable Loader.ctx by Loader.Init, Loader.Free
+//@ decl stable Loader.authorization by NewLoader
+//@ decl stable Loader.singleFlight by NewLoader
+//@ decl stable preparedFetch.res by Loader.preparePhase, Loader.resolveMultiEntityFetch
+//@ decl stable preparedFetch.item by Loader.preparePhase
+
+// ----------------------------------------------------------------------------------------------
+// DataBuffer: the lock that guards the shared response tree (C08 lock discipline)
+
+//@ func DataBuffer.Lock
+//@   requires d != nil && !held(d.mu)
+//@   acquires d.mu
+//@   ensures held(d.mu)
+//@   modifies held(d.mu)
+//@   safety nil
+
+//@ func DataBuffer.Unlock
+//@   requires d != nil && held(d.mu)
+//@   releases d.mu
+//@   ensures !held(d.mu)
+//@   modifies held(d.mu)
+//@   safety nil
+
+//@ func DataBuffer.Get
+//@   requires d != nil && held(d.mu)
+//@   ensures result == d.data
+//@   pure
+
+//@ func DataBuffer.Set
+//@   requires d != nil && held(d.mu)
+//@   ensures d.data == v
+//@   modifies d.data
+//@   emits dataSet
+
+// ----------------------------------------------------------------------------------------------
+// C14 request side: a fetch whose protected root fields are denied is not sent
+
+//@ spec decisionID(ds string, tn string, fn string) int = xxh(cat(cat(cat(cat(ds, "\x00"), tn), "\x00"), fn))
+//@ spec deniedAt(l *Loader, info *FetchInfo, i int) bool = info.RootFields[i].HasAuthorizationRule && has(l.authorization.deny, decisionID(info.DataSourceID, info.RootFields[i].TypeName, info.RootFields[i].FieldName))
+
+//@ func authorizationDecisionID
+//@   ensures result == decisionID(dataSourceID, coordinate.TypeName, coordinate.FieldName)
+//@   pure
+
+//@ func FieldAuthorization.denyReason
+//@   requires a != nil
+//@   ensures result1 <==> has(a.deny, decisionID(dataSourceID, coordinate.TypeName, coordinate.FieldName))
+//@   pure
+//@   safety nil
+
+//@ func Loader.isFetchAuthorizedFromCache
+//@   requires l != nil && res != nil
+//@   ensures {no.rules.allows} (l.authorization == nil || info == nil || len(info.RootFields) == 0) ==> result
+//@   ensures {nonquery.any.denied.blocks} l.authorization != nil && info != nil && operationType != ast.OperationTypeQuery && (exists i in 0..len(info.RootFields) :: deniedAt(l, info, i)) ==> !result
+//@   ensures {query.all.denied.blocks} l.authorization != nil && info != nil && operationType == ast.OperationTypeQuery && len(info.RootFields) > 0 && (forall i in 0..len(info.RootFields) :: deniedAt(l, info, i)) ==> !result
+//@   ensures {blocked.means.skipped} !result ==> res.fetchSkipped
+//@   ensures {allowed.leaves.flag} result ==> res.fetchSkipped == old(res.fetchSkipped)
+//@   modifies res.fetchSkipped
+//@   safety nil
+//@   loop 0:
+//@     invariant 0 <= i && i <= len(info.RootFields) && 0 <= deniedRootFields && deniedRootFields <= i
+//@     invariant (deniedRootFields == i) <==> (forall k in 0..i :: deniedAt(l, info, k))
+//@     invariant operationType != ast.OperationTypeQuery ==> (forall k in 0..i :: !deniedAt(l, info, k))
+//@     invariant res.fetchSkipped == old(res.fetchSkipped)
+//@     decreases len(info.RootFields) - i
+
+// Interface methods implemented outside package resolve: assumed not to touch the modelled state of
+// this package (they cannot name its unexported types). global(ext) stands for "state elsewhere".
+//@ func Authorizer.AuthorizePreFetch
+//@   modifies global(ext)
+//@   trusted interface method, implementations are outside package resolve
+//@ func Authorizer.AuthorizeObjectField
+//@   modifies global(ext)
+//@   trusted interface method, implementations are outside package resolve
+//@ func RateLimiter.RateLimitPreFetch
+//@   modifies global(ext)
+//@   trusted interface method, implementations are outside package resolve
+//@ func Fetch.Dependencies
+//@   pure
+//@   trusted plan accessor
+//@ func Fetch.FetchKind
+//@   pure
+//@   trusted plan accessor
+//@ func Fetch.FetchInfo
+//@   pure
+//@   trusted plan accessor
+//@ func DataSource.Load
+//@   modifies global(ext)
+//@   emits sent
+//@   trusted interface method: handing a request to a data source IS the event `sent`
+//@ func DataSource.LoadWithFiles
+//@   modifies global(ext)
+//@   emits sent
+//@   trusted interface method: handing a request to a data source IS the event `sent`
+
+//@ spec mustBlock(l *Loader, info *FetchInfo) bool = l.ctx.preFetchFieldAuthorizer != nil && l.authorization != nil && info != nil && ((info.OperationType != ast.OperationTypeUnknown && info.OperationType != ast.OperationTypeQuery && (exists i in 0..len(info.RootFields) :: deniedAt(l, info, i))) || (info.OperationType == ast.OperationTypeQuery && len(info.RootFields) > 0 && (forall i in 0..len(info.RootFields) :: deniedAt(l, info, i))))
+
+//@ func Loader.fetchOperationType
+//@   requires l != nil
+//@   ensures info != nil && info.OperationType != ast.OperationTypeUnknown ==> result == info.OperationType
+//@   pure
+//@   safety nil
+
+//@ func Loader.isFetchAuthorized
+//@   requires l != nil && l.ctx != nil && res != nil && info != nil
+//@   ghost var g_rejected bool = false
+//@   at call AuthorizePreFetch: ghost g_rejected = g_rejected || (result1 == nil && result0 != nil)
+//@   ensures {prefetch.denied.blocks} old(mustBlock(l, info)) ==> result1 == nil && !result0
+//@   ensures {legacy.rejected.blocks} result1 == nil && g_rejected ==> !result0
+//@   ensures {blocked.means.skipped} result1 == nil && !result0 ==> res.fetchSkipped
+//@   modifies *
+//@   safety nil
+//@   loop 0:
+//@     invariant 0 <= i && i <= len(info.RootFields)
+//@     invariant g_rejected ==> !authorized
+//@     invariant !authorized ==> res.fetchSkipped
+//@     invariant l.ctx != nil && l.ctx.authorizer != nil && old(l.ctx.preFetchFieldAuthorizer) == nil
+
+//@ func Loader.rateLimitFetch
+//@   requires l != nil && l.ctx != nil && res != nil
+//@   ensures {blocked.means.skipped} result1 == nil && !result0 ==> res.fetchSkipped && res.rateLimitRejected
+//@   modifies *
+//@   safety nil
+
+//@ func Loader.validatePreFetch
+//@   requires l != nil && l.ctx != nil && res != nil
+//@   ensures {denied.blocks} old(mustBlock(l, info)) ==> result1 != nil || !result0
+//@   ensures {blocked.means.skipped} info != nil && result1 == nil && !result0 ==> res.fetchSkipped
+//@   ensures {no.info.allows} info == nil ==> result0 && result1 == nil
+//@   modifies *
+//@   safety nil
+
+// prepareSingleFetch: the load is skipped unless validatePreFetch allowed it; a fetch that must be
+// blocked (denied mutation / fully denied query) always has skipLoad set.
+//@ func Loader.prepareSingleFetch
+//@   requires l != nil && l.ctx != nil && res != nil && prepared != nil
+//@   ghost var g_validated bool = false
+//@   ghost var g_mustBlock bool = false
+//@   at call validatePreFetch: ghostpre g_mustBlock = mustBlock(l, arg2)
+//@   at call validatePreFetch: ghost g_validated = result0 && result1 == nil
+//@   ensures {load.only.if.validated} result == nil && !prepared.skipLoad ==> g_validated
+//@   ensures {denied.never.loads} result == nil && g_mustBlock ==> prepared.skipLoad
+//@   modifies *, count(*)
+
+// loadPhase: nothing is sent when the prepared fetch says skipLoad
+//@ func Loader.loadPhase
+//@   requires l != nil && prepared != nil && prepared.res != nil
+//@   let skip = prepared.skipLoad
+//@   at call executeSourceLoad: assert {send.only.if.not.skipped} !skip
+//@   ensures {skipped.sends.nothing} skip ==> count(sent) == old(count(sent))
+//@   modifies *, count(*)
+//@   safety nil
+
+// ----------------------------------------------------------------------------------------------
+// C07: a failed fetch merges nothing and reports an error; dependants of a failed fetch are skipped
+
+//@ func Loader.mergeResult
+//@   requires l != nil && res != nil && l.dataBuffer != nil && held(l.dataBuffer.mu)
+//@   let failed = res.err != nil || res.authorizationRejected || res.rateLimitRejected || res.fetchSkipped || len(res.out) == 0
+//@   let transport = res.err != nil
+//@   at call MergeValuesWithPath: assert {merge.only.on.success} !failed
+//@   at call DataBuffer.Set: assert {set.only.on.success} !failed
+//@   at call taintedObjects.add: assert {taint.only.on.success} !failed
+//@   ensures {no.merge.on.failure} failed ==> count(merged) == old(count(merged)) && count(dataSet) == old(count(dataSet))
+//@   ensures {transport.error.reported} transport && result == nil ==> count(errorRendered) > old(count(errorRendered))
+//@   modifies *, count(merged), count(dataSet), count(errorRendered), count(arrayAppended), count(jsonSet)
+
+//@ func Loader.renderErrorsFailedToFetch
+//@   modifies *, count(arrayAppended)
+//@   emits errorRendered
+//@   trusted effect summary: appends one error object to l.errors or returns an error
+//@ func Loader.renderErrorsStatusFallback
+//@   modifies *, count(arrayAppended)
+//@   emits errorRendered
+//@   trusted effect summary: appends one error object to l.errors or returns an error
+//@ func Loader.renderErrorsFailedDeps
+//@   modifies *, count(arrayAppended)
+//@   emits errorRendered
+//@   trusted effect summary: appends one error object to l.errors or returns an error
+//@ func Loader.renderAuthorizationRejectedErrors
+//@   modifies *, count(arrayAppended)
+//@   emits errorRendered
+//@   trusted effect summary
+//@ func Loader.renderRateLimitRejectedErrors
+//@   modifies *, count(arrayAppended)
+//@   emits errorRendered
+//@   trusted effect summary
+//@ func Loader.mergeErrors
+//@   modifies *, count(arrayAppended), count(jsonSet)
+//@   trusted effect summary: merges subgraph errors into l.errors; never merges data
+//@ func Loader.setSkipErrors
+//@   modifies *, count(jsonSet)
+//@   trusted effect summary: sets the __skipErrors marker on the parent items
+
+//@ func Loader.recordErroredFetchIDLocked
+//@   requires l != nil
+//@   modifies *
+//@   safety nil
+
+//@ func Loader.shouldSkipErroredDependencyLocked
+//@   requires l != nil
+//@   ghost var g_found bool = false
+//@   ensures {no.errors.no.skip} old(len(l.erroredFetchIDs)) == 0 ==> !result
+//@   modifies *
+//@   safety nil
+//@   loop 0:
+//@     invariant true
+
+// preparePhase / mergePhase: the whole body runs under the data lock (C08 lock discipline); a fetch
+// whose dependency failed is not prepared (C07)
+//@ func Loader.preparePhase
+//@   requires l != nil && l.ctx != nil && l.dataBuffer != nil && !held(l.dataBuffer.mu)
+//@   ghost var g_skip bool = false
+//@   at call shouldSkipErroredDependencyLocked: ghost g_skip = result
+//@   at call shouldSkipErroredDependencyLocked: assert {lock.held} held(l.dataBuffer.mu)
+//@   at call selectItemsForPath: assert {lock.held} held(l.dataBuffer.mu)
+//@   at call prepareSingleFetch: assert {lock.held} held(l.dataBuffer.mu)
+//@   at call prepareEntityFetch: assert {lock.held} held(l.dataBuffer.mu)
+//@   at call prepareBatchEntityFetch: assert {lock.held} held(l.dataBuffer.mu)
+//@   at call prepareMultiEntityFetch: assert {lock.held} held(l.dataBuffer.mu)
+//@   ensures {errored.dependency.skips} g_skip ==> result0 == nil && result1 == nil
+//@   ensures {prepared.has.result} result0 != nil ==> result0.res != nil
+//@   ensures {lock.released} !held(l.dataBuffer.mu)
+//@   modifies *, count(*)
+
+//@ func Loader.mergePhase
+//@   requires l != nil && l.dataBuffer != nil && !held(l.dataBuffer.mu) && prepared != nil && prepared.res != nil
+//@   at call mergeResult: assert {lock.held} held(l.dataBuffer.mu)
+//@   at call mergeMultiEntityResult: assert {lock.held} held(l.dataBuffer.mu)
+//@   at call responseCacheCollect: assert {lock.held} held(l.dataBuffer.mu)
+//@   ensures {lock.released} !held(l.dataBuffer.mu)
+//@   modifies *, count(*)
+
+// resolveSingle: prepare -> load -> merge in program order; nothing is loaded for an unprepared fetch
+//@ func Loader.resolveSingle
+//@   requires l != nil && l.ctx != nil && l.dataBuffer != nil && !held(l.dataBuffer.mu)
+//@   ghost var g_prepared bool = false
+//@   ghost var g_prepErr bool = false
+//@   ghost var g_loaded bool = false
+//@   at call preparePhase: ghost g_prepared = result0 != nil
+//@   at call preparePhase: ghost g_prepErr = result1 != nil
+//@   at call loadPhase: assert {load.after.successful.prepare} g_prepared && !g_prepErr
+//@   at call loadPhase: assert {load.unlocked} !held(l.dataBuffer.mu)
+//@   at call loadPhase: ghost g_loaded = true
+//@   at call mergePhase: assert {merge.after.load} g_loaded
+//@   at call responseCacheFlush: assert {flush.unlocked} !held(l.dataBuffer.mu)
+//@   modifies *, count(*)
